@@ -259,6 +259,10 @@ def c17_files(cs):
         files[root + "/conftest.py"] = FIX_TXT
     elif vis == "sibling_conftest":
         files[root + "/s/conftest.py"] = FIX_TXT
+    elif vis == "sibling_prefix_conftest":
+        # the conftest's directory name is a textual prefix of the test's directory name (t vs t_e2e)
+        files[root + "/t/conftest.py"] = FIX_TXT
+        tpath = root + "/t_e2e/test_c.py"
     elif vis == "imported_by_conftest":
         files[root + "/t/helperx.py"] = FIX_TXT
         files[root + "/t/conftest.py"] = "import pytest\nfrom .helperx import *\n"
@@ -485,13 +489,13 @@ def check_c17(tier):
             try:
                 tree1 = _ast.parse(new)
             except SyntaxError as se:
-                V.classify(c17_fix_dev(cs, "syntax"), dict(e2, syntax_error=str(se)), "applying the offered %s produces a syntactically invalid document" % label)
+                V.classify(c17_fix_dev(cs, "syntax", label), dict(e2, syntax_error=str(se)), "applying the offered %s produces a syntactically invalid document" % label)
                 continue
             ps = fn_params(tree1, "test_t")
             if ps is None or "fx" not in ps:
-                V.classify(c17_fix_dev(cs, "wrong_place"), dict(e2, params=ps), "after the offered %s the fixture is not a parameter of the function" % label)
+                V.classify(c17_fix_dev(cs, "wrong_place", label), dict(e2, params=ps), "after the offered %s the fixture is not a parameter of the function" % label)
             if others_dump(tree1, "test_t") != others_dump(tree0, "test_t"):
-                V.classify(c17_fix_dev(cs, "other_fn"), e2, "the offered %s changes another function" % label)
+                V.classify(c17_fix_dev(cs, "other_fn", label), e2, "the offered %s changes another function" % label)
         if r.get("fixed_text") and isinstance(r.get("diags_after"), list):
             try:
                 _ast.parse(r["fixed_text"])
@@ -527,8 +531,10 @@ def c17_dev(cs, kind):
     return []
 
 
-def c17_fix_dev(cs, kind):
-    if cs["shape"] in ("default_param", "kwargs", "return_annot", "return_annot_params", "multiline", "multiline_trailing_comma",
-                       "trailing_comma", "followed_by_other_fn", "comment_after_colon", "kwonly", "star_args"):
-        return ["param_insertion_textual"]
+def c17_fix_dev(cs, kind, label=""):
+    """known only if this exact (shape, edit kind, symptom) is a listed instance of the finding"""
+    for f in C.load_findings():
+        if f.get("property") == "C17" and f.get("deviation") == "param_insertion_textual":
+            if [cs["shape"], label, kind] in f.get("instances", []):
+                return ["param_insertion_textual"]
     return []
